@@ -133,9 +133,21 @@ def gen_one(rng, tier, magic=False, hidden=False):
                       # a file appears in an existing (nested) directory
                       # between two populations by the same populator
                       'add_file': rng.random() < 0.25})
+    outside = None
+    if rng.random() < 0.15:
+        # a rule directory OUTSIDE the root, in a sibling directory whose
+        # name begins with the root's name: keys start with '..'
+        outside = [rng.choice(['a.txt', 'n.png']),
+                   'deep/' + rng.choice(['b.txt', 'c'])]
+        rules.append({'path': '../@ROOT0@_shared'
+                      + rng.choice(['', '', '/deep']),
+                      'exts': [], 'args': [rng.randrange(100)], 'kwargs': {}})
     return {'roots': roots, 'rules': rules,
             'ctor': {'nest': rng.random() < 0.6, 'trim': rng.random() < 0.5},
-            'calls': calls, 'magic': magic, 'hidden': hidden}
+            'calls': calls, 'magic': magic, 'hidden': hidden,
+            'outside': outside,
+            # the k-th handle built re-enters the populator (see the runner)
+            'reenter': rng.randrange(4) if rng.random() < 0.15 else None}
 
 
 def gen_cases(tier, seed):
@@ -222,6 +234,17 @@ def _run(case, desper, res, tmp):
             with open(os.path.join(root, f), 'w') as fout:
                 fout.write('x')
         roots.append(root)
+    if case.get('outside'):
+        base = os.path.basename(roots[0])
+        for f in case['outside']:
+            path = os.path.join(tmp, base + '_shared', f)
+            os.makedirs(os.path.dirname(path), exist_ok=True)
+            with open(path, 'w') as fout:
+                fout.write('x')
+        case = dict(case, rules=[
+            dict(r, path=r['path'].replace('@ROOT0@', base))
+            for r in case['rules']])
+        res.tags['rule_directory_outside_the_root'].add(True)
 
     class RecHandle(desper.Handle):
         def __init__(self, rule_index, path, args, kwargs):
@@ -240,9 +263,26 @@ def _run(case, desper, res, tmp):
         RecHandle.__len__ = lambda self: 0
         res.tags['falsy_handles'].add(True)
 
+    reenter = {'left': case.get('reenter')}
+
     def factory_for(index):
         def factory(path, *args, **kwargs):
             res.stats['instantiations'] += 1
+            if reenter['left'] is not None:
+                reenter['left'] -= 1
+                if reenter['left'] < 0:
+                    # a "bundle" resource: its factory indexes another
+                    # directory into a map of its own with the same
+                    # populator and other options, while the outer
+                    # population is still at work (which must not notice)
+                    reenter['left'] = None
+                    res.tags['populator_reentered_from_a_factory'].add(True)
+                    try:
+                        pop(desper.ResourceMap(), root=roots[-1],
+                            nest_on_conflict=not case['ctor']['nest'],
+                            trim_extensions=not case['ctor']['trim'])
+                    except ValueError:
+                        pass    # (a rule names a regular file over there)
             return RecHandle(index, path, args, kwargs)
         return factory
 
